@@ -12,12 +12,16 @@
 // See the License for the specific language governing permissions and
 // limitations under the License.
 
-use super::{separator, AttrBody, EventOrEnd, IncrementalReconParser, ItemsKind, RecBody, Span};
+use super::{
+    separator, string_literal, AttrBody, EventOrEnd, IncrementalReconParser, ItemsKind, RecBody,
+    Span,
+};
 use crate::hasher::HashError;
 use nom::branch::alt;
 use nom::bytes::complete::is_not;
 use nom::character::streaming as char_str;
-use nom::combinator::{map, opt};
+use nom::combinator::{map, recognize};
+use nom::multi::many0_count;
 use nom::error::ErrorKind;
 use nom::sequence::preceded;
 use nom::{Finish, IResult, Parser};
@@ -154,13 +158,22 @@ impl ValidationState {
     }
 }
 
+/// Skips over everything up to the next of the characters in `stops` (which must include the
+/// double quote) that is not inside a string literal.
+fn skip_until<'a>(stops: &'static str) -> impl FnMut(Span<'a>) -> IResult<Span<'a>, usize> {
+    many0_count(alt((
+        recognize(is_not(stops)),
+        recognize(string_literal),
+    )))
+}
+
 fn is_implicit_record(input: Span) -> bool {
     let mut result: IResult<Span<'_>, ValidationState> = Ok((input, ValidationState::Top));
 
     loop {
         result = match result {
             Ok((rest, ValidationState::Top)) => preceded(
-                opt(is_not(",;:{()")),
+                skip_until(",;:{()\""),
                 alt((
                     map(separator, |_| ValidationState::finish(true)),
                     map(char_str::char(':'), |_| ValidationState::finish(true)),
@@ -172,7 +185,7 @@ fn is_implicit_record(input: Span) -> bool {
                 )),
             )(rest),
             Ok((rest, ValidationState::Nested(level))) => preceded(
-                opt(is_not("{()}")),
+                skip_until("{()}\""),
                 alt((
                     map(char_str::char('{'), |_| ValidationState::increment(level)),
                     map(char_str::char('('), |_| ValidationState::increment(level)),
